@@ -70,6 +70,13 @@ type foreignStruct struct {
 	B string
 }
 
+type namedMap map[string]any
+type namedSlice []any
+type namedString string
+
+// WrapKinds lists the wrappers Build understands (one child in A).
+var WrapKinds = []string{"wrap:ptrany", "wrap:ptrptr", "wrap:ptr", "wrap:named"}
+
 // Build constructs the Go value.
 func (n Node) Build() any {
 	switch n.T {
@@ -199,6 +206,52 @@ func (n Node) Build() any {
 		return uintptr(7)
 	case "foreign:error":
 		return fmt.Errorf("boom")
+	case "foreign:ptrany":
+		var v any = map[string]any{"a": json.Number("1"), "b": []any{json.Number("1"), json.Number("2")}}
+		return &v
+	case "foreign:ptrmap":
+		return &map[string]any{"a": json.Number("1")}
+	case "foreign:ptrslice":
+		return &[]any{json.Number("1"), "x"}
+	case "foreign:namedmap":
+		return namedMap{"a": json.Number("1")}
+	case "foreign:namedslice":
+		return namedSlice{json.Number("1"), "x"}
+	case "foreign:rawjson":
+		return json.RawMessage(`{"a":1}`)
+	case "foreign:namedstring":
+		return namedString("abc")
+	// wrappers around a described value (A[0]): what a caller who decoded
+	// into a pointer, or who uses its own map and slice types, hands over
+	case "wrap:ptrany":
+		v := n.A[0].Build()
+		return &v
+	case "wrap:ptrptr":
+		v := n.A[0].Build()
+		p := &v
+		return &p
+	case "wrap:ptr":
+		switch v := n.A[0].Build().(type) {
+		case map[string]any:
+			return &v
+		case []any:
+			return &v
+		case string:
+			return &v
+		default:
+			return &v
+		}
+	case "wrap:named":
+		switch v := n.A[0].Build().(type) {
+		case map[string]any:
+			return namedMap(v)
+		case []any:
+			return namedSlice(v)
+		case string:
+			return namedString(v)
+		default:
+			return v
+		}
 	}
 	panic("data: unknown node type " + n.T)
 }
@@ -208,6 +261,7 @@ var ForeignKinds = []string{
 	"foreign:strings", "foreign:mapint", "foreign:struct", "foreign:ptr", "foreign:nilptr",
 	"foreign:chan", "foreign:func", "foreign:complex", "foreign:bytes", "foreign:ifaces",
 	"foreign:mapany", "foreign:uintptr", "foreign:error",
+	"foreign:ptrany", "foreign:ptrmap", "foreign:ptrslice", "foreign:namedmap", "foreign:namedslice", "foreign:rawjson", "foreign:namedstring",
 }
 
 // JSONText renders a node tree as JSON-ish text for samples (carriers shown
